@@ -3,6 +3,7 @@ import Ruint.Gen.GuardGraph
 import Ruint.Lemmas.GenCore
 import Ruint.Lemmas.GenCmp
 import Ruint.Lemmas.GenUintModCanon
+import Ruint.Lemmas.GenFls
 
 /-!
 # C04 — values stay canonical; `==`, `Hash`, `Ord` follow the number; ill-formed types are empty
@@ -257,5 +258,24 @@ theorem gen_uint_cmp_eq (bits LIMBS : ℕ) (a b : List ℕ) (h64 : min a.length 
     (hf : min a.length b.length < f) :
     Ruint.Gen.uint_cmp f bits LIMBS a b = Ruint.Cmp.cmp a b :=
   Ruint.GenUintMod.cmp_eq bits LIMBS a b h64 f hf
+
+/-! ### the limb-slice constructors regenerated whole (`Gen/WordsFls.lean`)
+
+`overflowing_from_limbs_slice` (both arms, the `any` over the tail, the top-limb test and mask, `from_limbs` with its `assert!`),
+`from_limbs_slice` (its `panic!` arm), `checked_…`, `wrapping_…`, `saturating_from_limbs_slice` as `src/lib.rs` defines them,
+translated on every run, equal the models of the theorems above for every width and every slice of words. -/
+
+theorem gen_overflowing_from_limbs_slice_eq (bits : ℕ) (hN : nlimbs bits < 2 ^ 64) (sl : List ℕ) (hw : Ruint.AllLt sl) :
+    Ruint.Gen.uint_overflowing_from_limbs_slice bits (nlimbs bits) sl = overflowingFromLimbsSlice bits sl :=
+  Ruint.GenFls.overflowing_from_limbs_slice_eq bits hN sl hw
+
+open Ruint.GenFls in
+theorem gen_from_limbs_slice_family_eq (bits : ℕ) (hN : nlimbs bits < 2 ^ 64) (sl : List ℕ) (hw : Ruint.AllLt sl) :
+    toRes (Ruint.Gen.uint_from_limbs_slice bits (nlimbs bits) sl) = fromLimbsSlice bits sl
+    ∧ toResO (Ruint.Gen.uint_checked_from_limbs_slice bits (nlimbs bits) sl) = checkedFromLimbsSlice bits sl
+    ∧ toRes (Ruint.Gen.uint_wrapping_from_limbs_slice bits (nlimbs bits) sl) = wrappingFromLimbsSlice bits sl
+    ∧ toRes (Ruint.Gen.uint_saturating_from_limbs_slice bits (nlimbs bits) sl) = saturatingFromLimbsSlice bits sl :=
+  ⟨from_limbs_slice_eq bits hN sl hw, checked_from_limbs_slice_eq bits hN sl hw, wrapping_from_limbs_slice_eq bits hN sl hw,
+   saturating_from_limbs_slice_eq bits hN sl hw⟩
 
 end Ruint.C04
